@@ -421,7 +421,8 @@ def binding_selftest(scratch, drv, make_args, traces_path, fields, tag="selftest
             except ValueError:
                 continue
             holder, key = _final_exp(tr)
-            if holder is None or (where and not where(tr)):
+            names = [f[0] if isinstance(f, tuple) else f for f in fields]
+            if (holder is None and not all(f.startswith(("top.", "step.")) for f in names)) or (where and not where(tr)):
                 continue
             picked.append(tr)
             if len(picked) >= n:
@@ -430,6 +431,9 @@ def binding_selftest(scratch, drv, make_args, traces_path, fields, tag="selftest
         raise Broken("binding self-test: no behaviour with a final expectation in %s" % traces_path)
     out = {}
     for field in fields:
+        mut = _perturb
+        if isinstance(field, tuple):     # (path, custom mutator)
+            field, mut = field
         path = field.split(".")
         inp = scratch.path("%s-%s.ndjson" % (tag, field.replace(".", "_")))
         rep = scratch.path("%s-%s.json" % (tag, field.replace(".", "_")))
@@ -437,7 +441,10 @@ def binding_selftest(scratch, drv, make_args, traces_path, fields, tag="selftest
         with open(inp, "w") as o:
             for tr in picked:
                 t = json.loads(json.dumps(tr))
-                if path[0] == "step":
+                if path[0] == "top":
+                    node = t
+                    path_ = path[1:]
+                elif path[0] == "step":
                     # a field of the last step (its prescribed result or an argument the driver asserts on)
                     if not t.get("steps"):
                         continue
@@ -458,9 +465,9 @@ def binding_selftest(scratch, drv, make_args, traces_path, fields, tag="selftest
                         break
                 last = path_[-1]
                 if ok and isinstance(node, list) and last.isdigit() and int(last) < len(node):
-                    node[int(last)] = _perturb(node[int(last)])
+                    node[int(last)] = mut(node[int(last)])
                 elif ok and isinstance(node, dict) and last in node:
-                    node[last] = _perturb(node[last])
+                    node[last] = mut(node[last])
                 else:
                     continue
                 o.write(json.dumps(t) + "\n")
